@@ -26,7 +26,7 @@ TECH = {
     "C15": "MIR provenance of the returned Config (CLI overrides applied last), path table of the upward search stop test, fallback-location rule, constant audit of config file names; search start directory and search root provenance; stdin file path always seeds the search (R-CFG(k) path table); flag-skipped path clause of load_overrides",
     "C16": "MIR dominance of dispatch by de-duplication; constant audit of globs/ignore names; decision table of explicit-path predicate; walker option order; glob override root; primary / fallback position of the two ignore-file lookups; every path argument becomes a walker root; ignore verdict from matched_path_or_any_parents (R-IGNOREMATCH); dispatch guarded by Path::is_file of the entry path",
     "C17": "MIR who-may-write stdout, payload provenance, no fs mutation on the stdin path; configuration search root provenance on the stdin path; pool size bound (R-WORKERS); no lossy decoding of stdin (R-EXACTREAD); override-last on the stdin fallback; R-CFG(k); println only under formats refused without --check; R-IGNOREMATCH; logger target never stdout; stdin ignore lookup reached from the respect_ignores test by unconditional edges only (R-IGNOREGUARD, dominance + straight-line reachability)",
-    "C18": "MIR dataflow: argument order from format_code's result to TextDiff::from_lines, frozen idiom table of exact no-difference tests with polarity, symbolic linear forms of the JSON line numbers over the DiffOp fields, iterator-chain completeness of the mismatch texts (all changes, matching tag), loop-exit structure, unified-diff builder options; the line diff itself (crate similar) is assumed; path table of check-mode verdicts in format_file / format_string (R-CHECKVERDICT); producer bytes unmodified on the way out of create_diff (R-DIFFBYTES); derived Serialize of DiffMismatch writes every field (R-DIFFSER)",
+    "C18": "MIR dataflow: argument order from format_code's result to TextDiff::from_lines, frozen idiom table of exact no-difference tests with polarity, symbolic linear forms of the JSON line numbers over the DiffOp fields, iterator-chain completeness of the mismatch texts (all changes, matching tag), loop-exit structure, unified-diff builder options; the line diff itself (crate similar) is assumed; path table of check-mode verdicts in format_file / format_string (R-CHECKVERDICT); producer bytes unmodified on the way out of create_diff (R-DIFFBYTES); derived Serialize of DiffMismatch writes every field (R-DIFFSER); build-manifest rule: pinned version of the diff engine x algorithm selected by the appliable producers vs a table of versions confirmed to report inconsistent DiffOp indices (R-DIFFDEP, finding F25)",
     "C19": "static race pattern: lattice-monotone atomic status updates, join-before-read, no shared mutable captures; single writer per file name (R-FS); no static / thread-local state in the library (R-NOSTATE); one job per file (dedup clause of R-WALK); pool parameters independent of the thread count",
     "C20": "MIR + ADT facts: flag/config enum conversions total and name preserving, override wiring field-by-field, deny_unknown_fields in derived visitors, editorconfig mapping table; configuration errors propagated (R-CFGERR); provenance of the path handed to editorconfig::parse (R-EC(path): a file, never the searched directory); EditorConfig-derived Config never stored (R-EC(per-file)); path clause of load_overrides (no flag skipped by an early return)",
 }
